@@ -6,6 +6,7 @@ import (
 	"go/constant"
 	"go/token"
 	"go/types"
+	"os"
 	"strings"
 
 	"golang.org/x/tools/go/ssa"
@@ -32,7 +33,6 @@ var nonHTMLWriters = map[string]string{
 	modPath + "/runtime.WriteString":           "writes a generator-produced literal (G-LIT) or the development text file's copy of it (C16)",
 	modPath + ".WriteWatchModeString":          "deprecated development-mode literal writer (C16)",
 	modPath + ".(CSSHandler).ServeHTTP":        "serves text/css, not HTML: operand must be SafeCSS (checked here as TYPE)",
-	modPath + ".writeStrings":                  "forwarding wrapper: its call sites are checked instead",
 	modPath + "/safehtml.SanitizeStyleValue$1": "",
 }
 
@@ -194,14 +194,14 @@ func htmlSinkOperands(c *Ctx, f *flow, rule string) {
 		if fn.Object() != nil && !fn.Object().Exported() && fn.Signature.Recv() == nil {
 			onlyCalled[fn] = true
 		}
-		// … and unexported methods of unexported types (a small writer type): they cannot be reached from outside the
-		// package, and a use as a method value is caught below like any other use as a value
+		// … and unexported methods: they cannot be reached from outside the package, and a use as a method value is
+		// caught below like any other use as a value
 		if fn.Object() != nil && !fn.Object().Exported() && fn.Signature.Recv() != nil {
 			rt := fn.Signature.Recv().Type()
 			if pt, ok := rt.(*types.Pointer); ok {
 				rt = pt.Elem()
 			}
-			if nt, ok := rt.(*types.Named); ok && !nt.Obj().Exported() && fn.Synthetic == "" {
+			if _, ok := rt.(*types.Named); ok && fn.Synthetic == "" { // (whether the type is exported does not matter: the method's name cannot be written outside the package)
 				// not an implementation of an interface method that is called dynamically: no interface of the package
 				// declares a method of this name
 				dynamic := false
@@ -265,6 +265,101 @@ func htmlSinkOperands(c *Ctx, f *flow, rule string) {
 			if used && onlyCalls {
 				onlyCalled[fn] = true
 			}
+		}
+	}
+	// a closure that an unexported, directly-called function builds and returns, when every caller does nothing with
+	// the result but call it (write := stringSinkFor(w); write(s)): its call sites are the calls of those results
+	returnedBy := map[*ssa.Function][]*ssa.Function{} // maker → the closures it returns
+	onlyReturned := func(v ssa.Value) bool {
+		// every use of the function value is a return of the maker, possibly after a conversion to a named func type
+		var ok func(v ssa.Value, depth int) bool
+		ok = func(v ssa.Value, depth int) bool {
+			refs := v.Referrers()
+			if refs == nil || len(*refs) == 0 || depth > 2 {
+				return false
+			}
+			for _, r := range *refs {
+				switch r := r.(type) {
+				case *ssa.Return, *ssa.DebugRef:
+				case *ssa.ChangeType:
+					if !ok(r, depth+1) {
+						return false
+					}
+				default:
+					return false
+				}
+			}
+			return true
+		}
+		return ok(v, 0)
+	}
+	resultOnlyCalled := func(maker *ssa.Function) bool {
+		// every call of the maker in the scanned functions uses the result only as the callee of calls
+		sites := 0
+		for _, fn := range fns {
+			for _, b := range fn.Blocks {
+				for _, ins := range b.Instrs {
+					call, isCall := ins.(*ssa.Call)
+					if !isCall || call.Common().StaticCallee() != maker {
+						if ci, ok := ins.(ssa.CallInstruction); ok && ci.Common().StaticCallee() == maker {
+							return false // go / defer of the maker: result dropped, but keep it simple
+						}
+						continue
+					}
+					sites++
+					var uses func(v ssa.Value, depth int) bool
+					uses = func(v ssa.Value, depth int) bool {
+						refs := v.Referrers()
+						if refs == nil || depth > 2 {
+							return refs != nil
+						}
+						for _, r := range *refs {
+							switch r := r.(type) {
+							case *ssa.DebugRef:
+							case *ssa.ChangeType:
+								if !uses(r, depth+1) {
+									return false
+								}
+							case ssa.CallInstruction:
+								if r.Common().Value != v {
+									return false
+								}
+							default:
+								return false
+							}
+						}
+						return true
+					}
+					if !uses(call, 0) {
+						return false
+					}
+				}
+			}
+		}
+		return sites > 0
+	}
+	for _, fn := range fns {
+		if fn.Object() != nil || fn.Parent() == nil {
+			continue
+		}
+		maker := fn.Parent()
+		if maker.Object() == nil || maker.Object().Exported() || maker.Signature.Recv() != nil || maker.Signature.Results().Len() != 1 {
+			continue
+		}
+		made, allReturned := false, true
+		for _, b := range maker.Blocks {
+			for _, ins := range b.Instrs {
+				if mc, ok := ins.(*ssa.MakeClosure); ok && mc.Fn == ssa.Value(fn) {
+					made = true
+					if !onlyReturned(mc) {
+						allReturned = false
+					}
+				}
+			}
+		}
+		if made && allReturned && onlyCalled[maker] && resultOnlyCalled(maker) {
+			onlyCalled[fn] = true
+			returnedBy[maker] = append(returnedBy[maker], fn)
 		}
 	}
 	for _, fn := range fns {
@@ -431,44 +526,67 @@ func htmlSinkOperands(c *Ctx, f *flow, rule string) {
 					if !ok {
 						continue
 					}
-					callee := ci.Common().StaticCallee()
-					if callee == nil || len(deferred[callee]) == 0 || callee == fn {
-						continue
-					}
-					nth[callee]++
-					for _, ds := range deferred[callee] {
-						var sub []leaf
-						for _, l := range ds.leaves {
-							sub = append(sub, f.substParams(l, callee, ci.Common().Args, 0, map[ssa.Value]bool{})...)
+					callees := []*ssa.Function{ci.Common().StaticCallee()}
+					if callees[0] == nil {
+						// a call of what a closure maker returned
+						v := ci.Common().Value
+						if ct, ok := v.(*ssa.ChangeType); ok {
+							v = ct.X
 						}
-						nops++
-						key := fmt.Sprintf("%s|call:%s#%d|%s", name, callee.Name(), nth[callee], ds.key)
-						bad, again := "", false
-						if _, exempt := nonHTMLWriters[name]; !exempt {
-							for _, l := range sub {
-								if ok, why := leafAcceptableHTML(l, name); !ok {
-									if onlyCalled[fn] && acceptableModuloOwnParams(l, name) {
-										again = true
-										continue
+						if mk, ok := v.(*ssa.Call); ok && mk.Common().StaticCallee() != nil {
+							callees = returnedBy[mk.Common().StaticCallee()]
+						}
+					}
+					for _, callee := range callees {
+						if callee == nil || len(deferred[callee]) == 0 || callee == fn {
+							continue
+						}
+						nth[callee]++
+						for _, ds := range deferred[callee] {
+							var sub []leaf
+							for _, l := range ds.leaves {
+								sub = append(sub, f.substParams(l, callee, ci.Common().Args, 0, map[ssa.Value]bool{})...)
+							}
+							nops++
+							key := fmt.Sprintf("%s|call:%s#%d|%s", name, callee.Name(), nth[callee], ds.key)
+							bad, again := "", false
+							if _, exempt := nonHTMLWriters[name]; !exempt {
+								for _, l := range sub {
+									if ok, why := leafAcceptableHTML(l, name); !ok {
+										if onlyCalled[fn] && acceptableModuloOwnParams(l, name) {
+											again = true
+											continue
+										}
+										bad = why
+										break
 									}
-									bad = why
-									break
 								}
 							}
-						}
-						if bad != "" {
-							c.viol(rule, key, c.pos(ins.Pos()), fmt.Sprintf("%s: %s (written by %s at %s; operand classified as %s)", name, bad, callee.Name(), c.pos(ds.pos), leavesString(sub)))
-						} else {
-							c.ok(rule, key, c.pos(ins.Pos()), leavesString(sub))
-							if again {
-								next[fn] = append(next[fn], deferredSink{key: key, leaves: sub, pos: ds.pos})
+							if bad != "" {
+								c.viol(rule, key, c.pos(ins.Pos()), fmt.Sprintf("%s: %s (written by %s at %s; operand classified as %s)", name, bad, callee.Name(), c.pos(ds.pos), leavesString(sub)))
+							} else {
+								c.ok(rule, key, c.pos(ins.Pos()), leavesString(sub))
+								if again {
+									next[fn] = append(next[fn], deferredSink{key: key, leaves: sub, pos: ds.pos})
+								}
 							}
 						}
 					}
 				}
 			}
 		}
+		if os.Getenv("TEMPLVET_DEBUG") != "" {
+			for k, v := range next {
+				fmt.Fprintf(os.Stderr, "DEBUG C01 round %d: %d deferred operands of %s\n", round, len(v), ssaFuncName(k))
+			}
+		}
 		deferred = next
+	}
+	// operands still handed up after three levels of helpers are not decided
+	for fn, dss := range deferred {
+		for _, ds := range dss {
+			c.undec(rule, ds.key+"|forwarding-depth", c.pos(ds.pos), fmt.Sprintf("%s forwards the operand through more than three levels of directly-called helpers; its origin was not followed further", ssaFuncName(fn)))
+		}
 	}
 	c.count("sink_sites", nsinks)
 	c.count("sink_operands", nops)
